@@ -179,6 +179,10 @@ pub fn canonical_dt(dt: &DateTime) -> Result<(), String> {
     // calendar differences against day-aligned references and a date setter read the stored
     // fields in their own way
     let p = mk_dt(i);
+    let rel = (*dt == p, p == *dt, dt.cmp(&p), p.cmp(dt), *dt <= p, *dt >= p, *dt < p, *dt > p, z == p, z.cmp(&p));
+    if rel != (true, true, std::cmp::Ordering::Equal, std::cmp::Ordering::Equal, true, true, false, false, true, std::cmp::Ordering::Equal) {
+        return Err(format!("(==, ==, cmp, cmp, <=, >=, <, >, ==, cmp) against a freshly built value of the same instant = {:?}", rel));
+    }
     for r in [i - f.day_ns as i128 - 31 * tl::DAY_NS, i - f.day_ns as i128 + tl::DAY_NS, i - f.day_ns as i128] {
         if !tl::representable(r) {
             continue;
@@ -227,6 +231,39 @@ pub fn local_now_ok(now: i64) -> bool {
 pub fn pin_local(off: i32, now: i64) {
     astrolabe::verif::set_localtime(Some(Ok(local_zone_bytes(off, now))));
     astrolabe::verif::set_now(Some(DateTime::from_timestamp(now)));
+}
+
+/// The same as `pin_local`, with a version-2 file whose footer alternates between two names of
+/// the SAME offset `off` on the given rule days: the local offset is `off` at every instant after
+/// the file's last transition, but every look-up has to evaluate the rules, for the clock's year.
+/// The rule text is built by the caller from the numbers of its own case (an argument of a setter
+/// as a rule day, say), so that whatever the zone code computes or remembers along the way is as
+/// close to the case's own computations as it can be. Returns false (and pins the plain file) if
+/// the library does not resolve this file to `off`.
+pub fn pin_local_rules(off: i32, now: i64, rules: &str) -> bool {
+    let posix = |o: i32| {
+        let s = -(o as i64);
+        let a = s.abs();
+        format!("{}{}:{:02}:{:02}", if s < 0 { "-" } else { "" }, a / 3600, a / 60 % 60, a % 60)
+    };
+    let other = if off + 3_600 <= 86_399 { off + 3_600 } else { off - 3_600 };
+    let bytes = crate::tzsyn::Synth {
+        version: 2,
+        types: vec![(other, true), (off, false)],
+        transitions: vec![(i32::MIN as i64, 0), ((now - 86_400).clamp(i32::MIN as i64 + 1, i32::MAX as i64), 1)],
+        v1_populated: true,
+        footer: Some(format!("AAA{}BBB{},{}", posix(off), posix(off), rules)),
+        indicators: false,
+        leaps: 0,
+    }
+    .build();
+    astrolabe::verif::set_localtime(Some(Ok(bytes)));
+    astrolabe::verif::set_now(Some(DateTime::from_timestamp(now)));
+    let ok = std::panic::catch_unwind(|| Offset::Local.resolve()).map(|v| v == off).unwrap_or(false);
+    if !ok {
+        pin_local(off, now);
+    }
+    ok
 }
 
 pub fn unpin_local() {
